@@ -25,6 +25,8 @@ Definition good_bin (op : binop) (a b : value) (n : nat) : trace * outcome :=
        | BLooseEq => match a, b with
                      | VStr x, VStr y => ([], Val (VBool (zlist_eqb x y)))
                      | VNum x, VNum y => ([], Val (VBool (num_eq x y)))
+                     | _, VNull => ([], Val (VBool (nullish a)))
+                     | VNull, _ => ([], Val (VBool (nullish b)))
                      | _, _ => (t, Val (VBool false))
                      end
        | BAdd => match a, b with
@@ -85,6 +87,8 @@ Proof.
   - (* ok_add_str_str *) reflexivity.
   - (* ok_add_indep_r *) intros a s1 s2 n. destruct a; cbn; auto.
   - (* ok_add_indep_l *) intros b s1 s2 n. destruct b; cbn; auto.
+  - (* ok_looseeq_null_r *) intros a n. destruct a; reflexivity.
+  - (* ok_looseeq_null_l *) intros a n. destruct a; reflexivity.
   - reflexivity.
   - reflexivity.
   - reflexivity.
